@@ -31,4 +31,6 @@ NoStaleRequests == \A id \in DOMAIN reqs : \A r \in reqs[id] : \A s \in Get(stop
 EndAlwaysPossible == ENABLED End(now)
 Small == \A id \in Ids : Cardinality(Get(ann, id, {})) <= 2 /\ Cardinality(Get(reqs, id, {})) <= 1
                          /\ Cardinality(Get(stops, id, {})) <= 1 /\ Cardinality(Get(unint, id, {})) <= 1
+\* quick tier: no interest changes in the model
+SmallQ == Small /\ \A id \in Ids : Get(unint, id, {}) = {} /\ Get(interested, id, TRUE)
 =============================================================================
